@@ -1,29 +1,21 @@
-"""C13: valid trigger expressions whose prerequisite cannot be evaluated
-because GraphParser._proc_dep_pair / _compute_triggers rewrite the
-expression text with regexes / str.replace that also hit a *different* atom.
+"""C13 (ALL FIXED in /repo - kept as a regression guard): valid trigger
+expressions whose prerequisite could not be evaluated because
+GraphParser._proc_dep_pair / _compute_triggers rewrote the expression text
+with regexes / str.replace that also hit a *different* atom.
 
 Run:  PYTHONPATH=/repo /venv/bin/python findings/C13_graph_rewrite_name_qualifier_collisions.py
 
-Every workflow below is accepted by WorkflowConfig.  The left-hand side is
-stored on the Dependency half-rewritten; Prerequisite.set_conditional_expr
-cannot substitute the damaged atom and Prerequisite.is_satisfied() raises
-(TriggerExpressionError / NameError) when the task is spawned in a
-scheduler.  `cylc validate` only notices at the initial cycle point
-("ERROR: bad trigger"), `cylc play` does not check at all.
+Found by the C13 check (signatures C13:graph-rewrite:*), fixed in /repo by
+the commits named below; on a tree without those commits every workflow is
+accepted by WorkflowConfig and Prerequisite.is_satisfied() raises
+(TriggerExpressionError / NameError) when the task is spawned.
 
-(2b) implicit-succeeded-name-equals-qualifier-token: r'NAME(?![\\[:])' for an
-    implicit task "x" matches the qualifier of "a:x" (custom output x of
-    another task): "a:x:succeeded".
-(3) short-qualifier-before-hyphen: r'NAME:short\\b(?![\\[:])' for "a:fail"
-    matches the head of "a:fail-safe" (custom output): "a:failed-safe".
-(4) finish-name-suffix: expr.replace("a:finished", "(a:succeeded|a:failed)")
-    also rewrites the tail of "aa:finished": "a(...)".
-
-Three sibling defects found by the same check were fixed in /repo by commits
-c10e22a and 86a328e (offset form + short qualifier `a[-P1]:succeeded |
-a[-P1]:succeed`; implicit name inside a hyphenated name `a | a-x`; names
-ending in + % @ - `foo+[-P1] | b`); they are listed last as regression guards
-and not counted.
+(1) c10e22a offset-short-qualifier-prefix: `a[-P1]:succeeded | a[-P1]:succeed`
+(2) 86a328e implicit-succeeded-name-token-inside-other-name: `a | a-x`
+(2b) 65bf15a implicit-succeeded-name-equals-qualifier-token: `a:x | x`
+(3) b8d1faf short-qualifier-before-hyphen: `a:fail? | a:fail-safe?`
+(4) 237f8ab finish-name-suffix: `a:finish | aa:finish`
+(5) 86a328e name-ends-nonword: `foo+[-P1] | b`
 """
 import tempfile
 from pathlib import Path
@@ -35,23 +27,22 @@ from cylc.flow.scripts.validate import ValidateOptions
 from cylc.flow.task_proxy import TaskProxy
 
 CASES = [
+    ('offset-short-qualifier-prefix',
+     'a\n a[-P1]:succeeded | a[-P1]:succeed => tgt', ''),
+    ('implicit-succeeded-name-token-inside-other-name',
+     'a | a-x => tgt', ''),
     ('implicit-succeeded-name-equals-qualifier-token',
      'a:x | x => tgt',
      '    [[a]]\n        [[[outputs]]]\n            x = x done'),
     ('short-qualifier-before-hyphen',
      'a:fail? | a:fail-safe? => tgt',
-     '    [[a]]\n        [[[outputs]]]\n            fail-safe = failed safely'),
+     '    [[a]]\n        [[[outputs]]]\n            fail-safe = safe stop'),
     ('finish-name-suffix',
      'a:finish | aa:finish => tgt', ''),
-]
-FIXED = [
-    ('(fixed c10e22a) offset-short-qualifier-prefix',
-     'a\n a[-P1]:succeeded | a[-P1]:succeed => tgt', ''),
-    ('(fixed 86a328e) implicit-succeeded-name-token-inside-other-name',
-     'a | a-x => tgt', ''),
-    ('(fixed 86a328e) name-ends-nonword',
+    ('name-ends-nonword',
      'foo+\n foo+[-P1] | b => tgt', ''),
 ]
+FIXED = []
 
 wrong = 0
 for label, graph, runtime in CASES + FIXED:
